@@ -80,6 +80,7 @@ def run_verus(path, ex, name, rlimit=None, seed=None, timeout=900, extra=(), mul
     res.log = ex.log
     res.obligation_items = list(ex.obligation_items)
     res.origin = ex.out.origin
+    res.canary_tmpl_items = list(ex.canary_tmpl_items)
     cmd = ['verus', path, '--output-json', '--time', '--multiple-errors', str(multiple_errors), '--error-format=json',
            '--triggers-mode', 'silent']
     if rlimit:
